@@ -398,6 +398,84 @@ func c06Files(c *Ctx) {
 			})
 			idx++
 		}
+		// Files named *.gz whose content is not a complete gzip stream: empty, plain
+		// text, or a gzip stream cut short. Nothing can be "opened" in the first two:
+		// an error and no record. A cut stream delivers leading records of the
+		// fault-free decode and then an error, never a clean end.
+		for i := 0; i < c.N(6, 60); i++ {
+			c.Case(idx, func(k *K) {
+				r := k.Rand()
+				ff := f
+				if ff == "samh" {
+					ff = "sam"
+				}
+				x := plainWellFormed(r, ff)
+				for len(x) < 200 {
+					x = append(x, plainWellFormed(r, ff)...)
+				}
+				k.Input("format", f)
+				k.Input("input", func() string { return describeText(x) })
+				ref, _ := collect(cd.seq(bytes.NewReader(x)), len(x)+8)
+				for _, it := range ref {
+					if it.Err {
+						return // (cannot happen for well-formed text; other units would report it)
+					}
+				}
+				gz := gzipBytes(x, 1+r.IntN(9))
+				type variant struct {
+					name    string
+					content []byte
+					prefix  bool // leading records allowed
+				}
+				vs := []variant{{"empty", nil, false}, {"plain text named .gz", x, false}}
+				for _, cut := range []int{1, 3, 9, 10, 11, len(gz) / 2, len(gz) - 9, len(gz) - 8, len(gz) - 4, len(gz) - 1} {
+					if cut > 0 && cut < len(gz) {
+						vs = append(vs, variant{fmt.Sprintf("gzip stream cut at %d of %d", cut, len(gz)), gz[:cut], true})
+					}
+				}
+				for vi, v := range vs {
+					p := filepath.Join(dir, fmt.Sprintf("b%d_%d%s.gz", k.Idx, vi, cd.ext))
+					if os.WriteFile(p, v.content, 0o644) != nil {
+						k.Count("file_write_failed", 1)
+						continue
+					}
+					got, over := collect(cd.file(p), len(x)+8)
+					os.Remove(p)
+					nerr, nrec, okPrefix := 0, 0, true
+					for j, it := range got {
+						if it.Err {
+							nerr++
+							continue
+						}
+						if nerr > 0 && f != "sam" && f != "samh" {
+							okPrefix = false // a record after the error
+						}
+						if nrec >= len(ref) || it != ref[nrec] || j != nrec {
+							okPrefix = false
+						}
+						nrec++
+					}
+					k.Input("variant", v.name)
+					switch {
+					case over:
+						k.Failf("file-broken-gz", "%s.File on %s: more than len+8 items", f, v.name)
+					case nerr == 0:
+						k.Failf("file-broken-gz", "%s.File on a *.gz file that is %s ended without an error item (%d records): %s", f, v.name, nrec, traceString(got))
+					case !v.prefix && nrec > 0:
+						k.Failf("file-broken-gz", "%s.File on a *.gz file that is %s delivered records: %s", f, v.name, traceString(got))
+					case v.prefix && !okPrefix:
+						k.Failf("file-broken-gz", "%s.File on a %s: the records before the error are not the leading records of the complete file:\n got  %s\n want a prefix of %s", f, v.name, traceString(got), traceString(ref))
+					}
+					k.Count("file_broken_gz", 1)
+					k.Evals(1)
+					if k.Failed() {
+						return
+					}
+				}
+				k.Nontrivial([]byte(f), x, []byte("broken-gz"))
+			})
+			idx++
+		}
 		// Missing path: exactly one item, an error.
 		c.Case(idx, func(k *K) {
 			for _, name := range []string{"does-not-exist" + cd.ext, "does-not-exist" + cd.ext + ".gz", "no-such-dir/x" + cd.ext} {
